@@ -227,6 +227,11 @@ SCRIPTED = [
     ("glob_nodeless", [], [[], [["set", "data/b2/w.csv", "a"]]], [[22, ["mvdir", "data/b2", "data/b3"]]]),
     ("glob_nodeless", [], [[["mvdir", "data/b1", "elsewhere"]], [["del", "data/b2/z.csv"]], [["mvdir", "elsewhere", "data/b1"]]]),
     ("glob_nodeless", [], [[["rmdir", "data/b1"], ["set", "data/b2/w.csv", "a"]], [["rmdir", "data"]]]),
+    ("glob_sub_slash", [], [[["set", "src/a/m3.py", "a"]], [["del", "src/a/m1.py"]], [["mkdir", "src/b"], ["set", "src/b/m4.py", "a"]]]),
+    ("glob_sub_slash", [], [[["set", "src/a/m3.py", "a"], ["del", "src/a/m3.py"]], [["set", "src/a/m3.py", "a"]]]),
+    ("odd_dir_names", [], [[["mvdir", "dq?", "dq_moved"]], [["mvdir", "dq_moved", "dq?"]]]),
+    ("odd_dir_names", [], [[["mvdir", "ds*", "ds_moved"], ["mvdir", "d[b]", "db_moved"]], [["set", "s1.txt", "b"]]]),
+    ("odd_dir_names", [], [[["rmdir", "dq?"]], [["mkdir", "dq?"], ["set", "dq?/d1.txt", "b"]]]),
 ]
 
 
